@@ -160,6 +160,11 @@ func (collection *linkCollectionImpl) SetLinks(tx *bbolt.Tx, id string, keys []s
 
 func (collection *linkCollectionImpl) EntityDeleted(tx *bbolt.Tx, id string) error {
 	bId := []byte(id)
+	// an extended child store is told about every delete in its parent: an entity without data in this store
+	// has no links here
+	if collection.field.GetStore().GetEntityBucket(tx, bId) == nil {
+		return nil
+	}
 	fieldBucket := collection.getFieldBucketForStringId(tx, id)
 
 	if !fieldBucket.HasError() {
